@@ -357,9 +357,16 @@ func (e *Enc) frameAtReturn(st *State) {
 	}
 	m := e.M
 	env := e.fnEnv(e.entry, nil)
-	// objects allowed to change
+	// objects allowed to change (wholly), and fields allowed to change (cell ranges of an object)
 	allowed := map[Sort][]string{}
+	type cellRange struct{ obj, lo, hi string }
+	var fields []cellRange
 	for _, c := range e.Ct.Modifies {
+		if fobj, foff, ft, ok := e.evalModField(c, env); ok {
+			lo, hi := e.modRange(foff, ft)
+			fields = append(fields, cellRange{fobj, lo, hi})
+			continue
+		}
 		objs, sorts := e.modTargets(c, env)
 		for _, s := range sorts {
 			allowed[s] = append(allowed[s], objs...)
@@ -382,7 +389,37 @@ func (e *Enc) frameAtReturn(st *State) {
 		for _, o := range allowed[s] {
 			conds = append(conds, not(eq("o", o)))
 		}
+		for _, f := range fields {
+			conds = append(conds, not(eq("o", f.obj)))
+		}
 		t := fmt.Sprintf("(forall ((o %s)) (=> %s (= (select %s o) (select %s o))))", I, and(conds...), h1, h0)
+		// objects of which only some fields may change: every other cell is unchanged
+		seenObj := map[string]bool{}
+		for _, f := range fields {
+			if seenObj[f.obj] {
+				continue
+			}
+			seenObj[f.obj] = true
+			whole := false
+			for _, o := range allowed[s] {
+				if o == f.obj {
+					whole = true
+				}
+			}
+			if whole {
+				continue
+			}
+			var outside []string
+			for _, g := range fields {
+				if g.obj == f.obj {
+					outside = append(outside, not(and(m.ile(g.lo, "k"), m.ilt("k", g.hi))))
+				} else {
+					// a field of possibly the same object under another name
+					outside = append(outside, not(and(eq(g.obj, f.obj), m.ile(g.lo, "k"), m.ilt("k", g.hi))))
+				}
+			}
+			t = and(t, fmt.Sprintf("(forall ((k %s)) (=> %s (= (select (select %s %s) k) (select (select %s %s) k))))", I, and(outside...), h1, f.obj, h0, f.obj))
+		}
 		e.oblige("frame", fmt.Sprintf("%s.ret%d", s0, e.retOrd), e.Fn.Pos(), e.reachHere(), t, "only objects named in modifies (or fresh) change in heap component "+s0)
 	}
 }
